@@ -13,7 +13,7 @@ def run(ctx):
     import nsqdmc
     nsqdmc.model_check(ctx)
     n = 16 if ctx.quick else 120
-    corelib.run_modes(ctx, "C07", [("bytes", n), ("core", n // 2)])
+    corelib.run_modes(ctx, "C07", [("bytes", n + n // 2), ("core", n // 2)])
     ctx.cov["distinct_nontrivial"] = len(ctx.notes.get("event_kinds", {}))
     ctx.cov["rule"] = ("evaluations = hook/harness events of real executions checked step by step by TLC against "
                        "NsqdAbs; distinct = event kinds (spec actions) exercised")
